@@ -638,6 +638,8 @@ func (p *clausePrinter) print(e ast.Expr) string {
 			return "func() bool { _, ok := " + p.print(e.Args[0]) + ".(" + exprString(e.Args[1]) + "); return ok }()"
 		case "len":
 			return "len(" + p.print(e.Args[0]) + ")"
+		case "box":
+			return "interface{}(" + p.print(e.Args[0]) + ")"
 		case "payloadnil":
 			p.needReflect = true
 			return "func(v interface{}) bool { rv := reflect.ValueOf(v); return v != nil && rv.Kind() == reflect.Ptr && rv.IsNil() }(" + p.print(e.Args[0]) + ")"
@@ -719,6 +721,9 @@ func (p *clausePrinter) specFnLit(sf *SpecFn) string {
 			p.fail = "uninterpreted spec fn " + sf.Name + " has no Go counterpart"
 			return head + " { panic(\"uninterpreted\") }"
 		}
+		return head + " { return " + sf.GoBody + " }"
+	}
+	if sf.GoBody != "" {
 		return head + " { return " + sf.GoBody + " }"
 	}
 	if sf.Rec {
